@@ -118,9 +118,14 @@ BNext == /\ Len(pts) < BMax
               /\ pts' = Append(pts, v)
 (* query points around every coordinate, on a grid four times finer than the lattice *)
 BQueries(pl) == {<<pl[i][1] * 4 + dx, pl[i][2] * 4 + dy, 0>> : i \in 1..Len(pl), dx \in {-3, 0, 2}, dy \in {-2, 1, 3}}
+                \* points a little off the polyline, 1/16 of a part before and after every interior coordinate (x 16 to stay integral)
+                \cup {<<(15 * pl[i][1] + pl[i - 1][1]) \div 4, (15 * pl[i][2] + pl[i - 1][2]) \div 4, 0>> : i \in 2..(Len(pl) - 1)}
+                \cup {<<(15 * pl[i][1] + pl[i + 1][1]) \div 4, (15 * pl[i][2] + pl[i + 1][2]) \div 4, 0>> : i \in 2..(Len(pl) - 1)}
+Cross2(a, b) == a[1] * b[2] - a[2] * b[1]
+HasCollinearTriple(pl) == \E i \in 1..(Len(pl) - 2) : Cross2(Vec(pl[i], pl[i + 1]), Vec(pl[i + 1], pl[i + 2])) = 0
 BezierBehaviour(pl) ==
   LET qs == SetToSeq(BQueries(pl)) IN
-  [id |-> <<"bezier", pl>>, labels |-> <<"bezier", "n" \o ToString(Len(pl))>>,
+  [id |-> <<"bezier", pl>>, labels |-> <<"bezier", "n" \o ToString(Len(pl)), IF HasCollinearTriple(pl) THEN "exactly-collinear-coordinates" ELSE "no-collinear-triple">>,
    steps |-> <<[op |-> "bezier", samples |-> 400, points |-> [i \in 1..Len(pl) |-> <<pl[i][1] * 100 * Km, pl[i][2] * 100 * Km>>],
                 queries |-> [i \in 1..Len(qs) |-> <<qs[i][1] * 25 * Km, qs[i][2] * 25 * Km, qs[i][3]>>]]>>]
 EmitBezier == Len(pts) < 2 \/ PrintT(<<"B", ToJson(BezierBehaviour(pts))>>)
